@@ -171,12 +171,15 @@ def check(ctx):
     ok = bool(dec) and bool(rd) and g.always_before(dec, rd)
     rdc = [c for n in rd for c in ast.walk(n.ast) if isinstance(c, ast.Call) and dotted(c.func) == "self.read"]
     dcc = [c for n in dec for c in ast.walk(n.ast) if isinstance(c, ast.Call) and dotted(c.func) == "self.decr"]
-    ok = ok and all(c.args and isinstance(c.args[0], ast.Constant) and c.args[0].value == 0 for c in rdc) \
-        and all((not c.args) or (isinstance(c.args[0], ast.Constant) and c.args[0].value == 1) for c in dcc)
+    def cval(c, name, pos, default):
+        """constant value of the argument bound to parameter `name` (positional slot `pos`), the default when omitted"""
+        a = kwarg(c, name, pos)
+        return default if a is None else (a.value if isinstance(a, ast.Constant) else "?")
+    ok = ok and all(cval(c, "offset", 0, 1) == 0 for c in rdc) and all(cval(c, "pos", 0, 1) == 1 for c in dcc)
     ctx.ob("C01.b", "RecordTensor.pop: decr(1) then read(0)", ok, "", pop.where)
     peek = meth("peek")
     rdc = [c for c in P.calls_in(peek) if dotted(c.func) == "self.read"]
-    ok = len(rdc) == 1 and ((not rdc[0].args and not rdc[0].keywords) or (rdc[0].args and isinstance(rdc[0].args[0], ast.Constant) and rdc[0].args[0].value == 1))
+    ok = len(rdc) == 1 and cval(rdc[0], "offset", 0, 1) == 1
     ctx.ob("C01.b", "RecordTensor.peek: read(1)", ok, "", peek.where)
     rdf = meth("read")
     dflt = rdf.node.args.defaults
@@ -184,7 +187,7 @@ def check(ctx):
     ls, ld = rt.props["latest"].get("set"), rt.props["latest"].get("del")
     ok = ls is not None and any(dotted(c.func) == "self.push" and c.args and isinstance(c.args[0], ast.Name) and c.args[0].id == ls.params()[0] for c in P.calls_in(ls))
     ctx.ob("C01.b", "RecordTensor.latest setter delegates to push", ok, "", ls.where if ls else "")
-    ok = ld is not None and any(dotted(c.func) == "self.decr" and ((not c.args) or c.args[0].value == 1) for c in P.calls_in(ld))
+    ok = ld is not None and any(dotted(c.func) == "self.decr" and cval(c, "pos", 0, 1) == 1 for c in P.calls_in(ld))
     ctx.ob("C01.b", "RecordTensor.latest deleter = decr(1)", ok, "", ld.where if ld else "")
 
     # ---------------- (c) align / reset / (de)initialise
